@@ -607,6 +607,46 @@ fn outlines(out: &mut GroupOut, p: &impl FontTableProvider) {
     }
 }
 
+/// diagnostic (`c01_faults probe-outlines`): what the visit of every glyph of a CFF / CFF2 font answers, per glyph id
+pub fn outline_report(bytes: &[u8]) -> Vec<String> {
+    let mut lines = Vec::new();
+    let fd = match ReadScope::new(bytes).read::<FontData<'_>>() {
+        Ok(f) => f,
+        Err(e) => return vec![format!("read: {:?}", e)],
+    };
+    let p = match fd.table_provider(0) {
+        Ok(p) => p,
+        Err(e) => return vec![format!("provider: {:?}", e)],
+    };
+    let n = num_glyphs_of(&p);
+    let show = |r: Caught<Result<(), String>>| match r {
+        Caught::Returned(Ok(())) => "Ok".to_string(),
+        Caught::Returned(Err(e)) => format!("Err({})", e),
+        _ => "PANIC".to_string(),
+    };
+    if let Ok(d) = p.read_table_data(tag::CFF) {
+        if let Ok(mut cff) = ReadScope::new(&d).read::<CFF<'_>>() {
+            for g in 0..n {
+                lines.push(format!("CFF gid {}: {}", g, show(guarded(|| cff.visit(g, &mut NullSink(0)).map_err(|e| format!("{:?}", e))))));
+            }
+        }
+    }
+    if let Ok(d) = p.read_table_data(tag::CFF2) {
+        if let Ok(cff2) = ReadScope::new(&d).read::<CFF2<'_>>() {
+            let tuples = tuples_of(&p);
+            for g in 0..n {
+                let mut l = format!("CFF2 gid {}:", g);
+                for t in [None, tuples.first(), tuples.last()] {
+                    let mut o = CFF2Outlines { table: &cff2, tuple: t };
+                    l += &format!(" {}", show(guarded(|| o.visit(g, &mut NullSink(0)).map_err(|e| format!("{:?}", e)))));
+                }
+                lines.push(l);
+            }
+        }
+    }
+    lines
+}
+
 /// normalised tuples (all 0, all 0.5, all -1) for the axis count the font's fvar declares
 fn tuples_of(p: &impl FontTableProvider) -> Vec<allsorts::tables::variable_fonts::OwnedTuple> {
     match guarded(|| -> Option<Vec<_>> {
@@ -707,8 +747,30 @@ fn instance(out: &mut GroupOut, p: &(impl FontTableProvider + SfntVersion)) {
             fvar.normalize(u.iter().copied(), avar.as_ref()).map(|t| t.len())
         });
     }
-    for u in users {
-        sub(out, || variations::instance(p, &u).map(|(v, _)| v.len()));
+    for (k, u) in users.into_iter().enumerate() {
+        let made = sub(out, || variations::instance(p, &u).map(|(v, _)| v));
+        // multi-step sequence: the instance at the axis maxima is a font file of its own - it is loaded, subset, and the
+        // subset loaded and its glyphs visited (every step under its own supervision, counted in this group)
+        if k == 2 {
+            if let Some(bytes) = made {
+                chain(out, &bytes);
+            }
+        }
+    }
+}
+
+fn chain(out: &mut GroupOut, bytes: &[u8]) {
+    let q = match open(out, bytes) {
+        Some(q) => q,
+        None => return,
+    };
+    let n = num_glyphs_of(&q);
+    let ids = [0u16, 1, n.wrapping_sub(1)];
+    if let Some(sb) = sub(out, || subset::subset(&q, &ids)) {
+        if let Some(r) = open(out, &sb) {
+            outlines(out, &r);
+            font_new(out, r);
+        }
     }
 }
 
